@@ -142,6 +142,11 @@ impl Flags {
     Self::try_from(bools)
   }
 
+  pub(crate) fn validate(&self) -> QCompressResult<()> {
+    let _bools: Vec<bool> = self.try_into()?;
+    Ok(())
+  }
+
   pub(crate) fn write(&self, writer: &mut BitWriter) -> QCompressResult<()> {
     let bools: Vec<bool> = self.try_into()?;
 
